@@ -727,6 +727,9 @@ func (u *Unit) opaqueLibraryCall(c *ast.CallExpr, fun ast.Expr, fn *types.Func, 
 			errv = v
 		}
 		vals = append(vals, Value{v, rt})
+		// specifications may name the results of the latest call of an opaque library function: <Func>_r<i>
+		env.alias[fmt.Sprintf("%s_r%d", fn.Name(), i)] = v
+		env.aliasTy[fmt.Sprintf("%s_r%d", fn.Name(), i)] = rt
 	}
 	if u.effectfulCallbacks() {
 		// a call through an opaque interface value (e.g. the wrapped http.RoundTripper): event of kind 2
